@@ -203,6 +203,11 @@ def op_ms(d, o):
     def call(top0, bot0):
         ins = [mk(n, f) for f in d['ins']]
         top, bottom = mk(n, top0), mk(n, bot0)
+        # aliasing: an outlet object is also one of the inlets (mix_and_split is alias-safe: the mixed flow is
+        # computed before any outlet is written)
+        if d.get('alias_top') is not None: top = ins[d['alias_top'] % len(ins)]
+        if d.get('alias_bot') is not None: bottom = ins[d['alias_bot'] % len(ins)]
+        if top is bottom: bottom = mk(n, bot0)
         sp = d['split']
         split = float(sp[0]) if d.get('scalar') else np.array(sp, float)
         sep.mix_and_split(ins, top, bottom, split)
@@ -219,7 +224,7 @@ def op_ms(d, o):
     if d.get('top0') or d.get('bot0'):
         check_stale(o, 'mix_and_split', [t, b], call(None, None))
     if any(t) and any(b): o.nontrivial = True
-    o.tags.append('ms')
+    o.tags.append('ms' + (':aliased' if d.get('alias_top') is not None or d.get('alias_bot') is not None else ''))
 
 
 def op_am(d, o):
@@ -321,12 +326,15 @@ def k_spread(ids, K, t, b):
 def op_pt(d, o):
     n, ids, K, topc, botc, strict = d['n'], d['ids'], d['K'], d['topc'], d['botc'], bool(d['strict'])
     feed0 = list(d['feed'])
+    alias = None if d.get('only_fraction') else d.get('alias')
     kw = {}
     if topc: kw['top_chemicals'] = names(n, topc)
     if botc: kw['bottom_chemicals'] = names(n, botc)
     def call(top0, bot0, only_fraction=False):
         REC.clear()
         feed, top, bottom = mk(n, feed0), mk(n, top0), mk(n, bot0)
+        if alias == 'top': top = feed
+        elif alias == 'bottom': bottom = feed
         with warnings.catch_warnings(record=True) as wl:
             warnings.simplefilter('always')
             try:
@@ -335,12 +343,12 @@ def op_pt(d, o):
                 else:
                     phi = sep.partition(feed, top, bottom, names(n, ids), np.array(K, float), strict=strict, **kw)
             except tmo.exceptions.InfeasibleRegion:
-                return 'infeasible', None, None, None, arr(feed)
+                return 'infeasible', None, None, None, feed0
         clip = any('negative flow' in str(w.message) for w in wl)
         if not only_fraction and sum(top.mol[i] for i in ids) > 0 and sum(bottom.mol[i] for i in ids) > 0:
             # achieved coefficients as the library itself computes them from the two outlets
             REC['Kach'] = [float(x) for x in sep.partition_coefficients(names(n, ids), top, bottom)]
-        return float(phi), arr(top), arr(bottom), clip, arr(feed)
+        return float(phi), arr(top), arr(bottom), clip, (feed0 if alias else arr(feed))
     if d.get('only_fraction'):
         phi, _, _, clip, _ = call(None, None, True)
         if 'pf' not in REC: return
@@ -354,7 +362,15 @@ def op_pt(d, o):
     if 'pf' not in REC: return
     emit_bpf(o)
     line = (f'pt n={n} feed={V(feed0)} bot0={V(d.get("bot0") or [])} ids={NL(ids)} K={V(K)} topc={NL(topc)} '
-            f'botc={NL(botc)} phi={frac(REC["pf"])} strict={int(strict)}')
+            f'botc={NL(botc)} phi={frac(REC["pf"])} strict={int(strict)}' + (f' alias={alias}' if alias else ''))
+    if alias and not (alias == 'top' and not any(feed0[i] for i in botc)):
+        # Outside what the code supports (fixes_proposed/C20-6.md): `bottom is feed` loses the feed, `top is feed` with
+        # forced-bottom chemicals gives them a negative top flow.  The behaviour is mirrored by the model; the property
+        # (stated for a feed distinct from the outlets) is not asserted here.
+        o.emit(line, 'pt err=infeasible' if phi == 'infeasible' else
+               f'pt phi={frac(phi)} top={V(t)} bot={V(b)} clip={int(clip)} kok={int(k_spread(ids, K, t, b) <= 1e-7)}')
+        o.tags.append(f'pt:alias-{alias}:unsupported')
+        return
     if phi == 'infeasible':
         o.emit(line, 'pt err=infeasible')
         o.tags.append('pt:infeasible'); o.nontrivial = True
@@ -373,7 +389,7 @@ def op_pt(d, o):
         rs = [ka / k for ka, k, i in zip(kach, K, ids) if t[i] > 0 and b[i] > 0]
         if len(rs) >= 2 and max(abs(x / rs[0] - 1) for x in rs) > 1e-7:
             o.fail('partition:K-not-reproduced', f'partition_coefficients(IDs, top, bottom) = {kach} is not a common multiple of the given K {what}')
-    if d.get('top0') or d.get('bot0'):
+    if (d.get('top0') or d.get('bot0')) and not alias:
         phi2, t2, b2, _, _ = call(None, None)
         if phi2 != 'infeasible': check_stale(o, 'partition', [t, b], [t2, b2], what)
     if in_domain and not clip and 0 < phi < 1 and spread > 1e-7:
@@ -391,7 +407,7 @@ def op_pt(d, o):
         if i not in ids and not near(t[i], 0.0):
             o.fail('partition:forced-bottom', f'{CHEMS[i]} was forced to the bottom but the top holds {t[i]!r} {what}'); break
     if any(t) and any(b): o.nontrivial = True
-    o.tags.append('pt:' + ('phi0' if phi <= 0 else 'phi1' if phi >= 1 else 'two-phase') + (':clip' if clip else '')
+    o.tags.append('pt:' + ('alias-top:' if alias else '') + ('phi0' if phi <= 0 else 'phi1' if phi >= 1 else 'two-phase') + (':clip' if clip else '')
                   + (':stale' if d.get('bot0') else ''))
 
 
@@ -591,7 +607,77 @@ def op_mb(d, o):
     o.tags.append('mb')
 
 
-OPS = {'ms': op_ms, 'am': op_am, 'msm': op_msm, 'pt': op_pt, 'lle': op_lle, 'vle': op_vle, 'ps': op_ps, 'cs': op_cs, 'mb': op_mb}
+ITER_CAP = 80
+
+
+class NoConvergence(Exception):
+    pass
+
+
+def op_mbc(d, o):
+    """material_balance(balance='composition'): fixed-point iteration; np.linalg.solve is wrapped for the duration of the
+    call to record the iterates and to stop the (cap-less) loop of the real code after ITER_CAP solves"""
+    n, idx = d['n'], d['idx']
+    vin = [mk(n, f) for f in d['vin']]
+    cin = [mk(n, f) for f in d['cin']]
+    cout = [mk(n, f) for f in d['cout']]
+    line = (f'mbc n={n} idx={NL(idx)} vin={VS(d["vin"])} cin={VS(d["cin"])} cout={VS(d["cout"])} fuel={ITER_CAP} '
+            f'tol={frac(1e-6)}')
+    sols = []
+    orig = np.linalg.solve
+    def solve(A, b):
+        if len(sols) >= ITER_CAP: raise NoConvergence()
+        x = orig(A, b)
+        sols.append([float(v) for v in x])
+        return x
+    np.linalg.solve = solve
+    try:
+        sep.material_balance(names(n, idx), vin, cin, cout, balance='composition')
+    except NoConvergence:
+        o.emit(line, 'mbc err=noconv'); o.tags.append('mbc:noconv')
+        return
+    except np.linalg.LinAlgError:
+        o.emit(line, 'mbc err=singular'); o.tags.append('mbc:singular')
+        return
+    finally:
+        np.linalg.solve = orig
+    new = [arr(s_) for s_ in vin]
+    shift = lambda x: [v - min(w for w in x if w < 0) for v in x] if any(w < 0 for w in x) else list(x)
+    shifted = any(w < 0 for w in sols[-1])
+    o.emit(line, f'mbc vin={VS(new)} it={len(sols)} shift={int(shifted)}')
+    # oracle on the real streams: composition of the chosen chemicals in the total inlet against the outlets.
+    # Exactly (no shift in the last iteration): inlet_c − f_c·(total inlet) = f_c·(S(x_prev) − S(x_new)), S = total flow
+    # of the scaled variable inlets; x_prev / x_new are the last two iterates of the real loop.
+    Fj = [sum(f) for f in d['vin']]
+    S = lambda x: sum(a * b for a, b in zip(Fj, x))
+    x_new = shift(sols[-1])
+    x_prev = shift(sols[-2]) if len(sols) >= 2 else [1.0] * len(idx)
+    tot_in = [sum(s_[i] for s_ in new) + sum(s_[i] for s_ in d['cin']) for i in range(n)]
+    tot_out = [sum(s_[i] for s_ in d['cout']) for i in range(n)]
+    Fin, Fout = sum(tot_in), sum(tot_out)
+    if not shifted and Fout > 0 and all(math.isfinite(v) for v in tot_in):
+        for c in idx:
+            f_c = tot_out[c] / Fout
+            lhs = tot_in[c] - f_c * Fin
+            rhs = f_c * (S(x_prev) - S(x_new))
+            if abs(lhs - rhs) > 1e-8 * max(abs(Fin), abs(S(x_prev)), 1.0):
+                o.fail('material_balance_composition:residual',
+                       f'{CHEMS[c]}: inlet − z_out·(total inlet) = {lhs!r}, but the last iteration step accounts for {rhs!r}')
+                break
+        # and it did stop where the code says it stops
+        den = [v if v != 0 else 1.0 for v in x_prev]
+        if sum(((a - b) / e) ** 2 for a, b, e in zip(x_new, x_prev, den)) > 1e-6 * (1 + 1e-9):
+            o.fail('material_balance_composition:not-converged', 'returned although the last relative change exceeds 1e-6')
+    for s0, s1 in zip(d['vin'], new):
+        f0, f1 = sum(s0), sum(s1)
+        if f0 and f1 and not all(near(x / f0, y / f1) for x, y in zip(s0, s1)):
+            o.fail('material_balance_composition:composition', f'a variable inlet changed composition: {s0} -> {s1}')
+            break
+    o.nontrivial = True
+    o.tags.append('mbc' + (':shift' if shifted else ''))
+
+
+OPS = {'mbc': op_mbc, 'ms': op_ms, 'am': op_am, 'msm': op_msm, 'pt': op_pt, 'lle': op_lle, 'vle': op_vle, 'ps': op_ps, 'cs': op_cs, 'mb': op_mb}
 # Not findings: numerical give-ups of the external solvers on inputs outside the property's domain, and numba's
 # cache writer failing with `ReferenceError: underlying object has vanished` while pickling the overload index of a
 # kernel that takes a function argument (dew_point.solve_x(…, gamma.f, …)) when NUMBA_CACHE_DIR is set (./check sets
@@ -645,6 +731,9 @@ def _close_struct(x, y):
 
 
 def compare(impl_line, model_line):
+    if ' || ' in model_line:
+        # aliased partition: the model prints the behaviour as found and the alias-safe result; either is accepted
+        return any(compare(impl_line, alt) for alt in model_line.split(' || '))
     if impl_line == model_line: return True
     paths = [t[5:] for t in model_line.split(' ') if t.startswith('path=')]
     ta = [t for t in impl_line.split(' ') if not t.startswith('path=')]
@@ -762,6 +851,7 @@ def gen_op(rng):
             d['K'] = [2.0 ** rng.randrange(-4, 5) for _ in range(m)]
             d['K'][rng.randrange(m)] = -rng.choice([0.25, 0.5, 2.0, 3.0]); d['wild'] = 1
         if rng.random() < 0.15: d['only_fraction'] = 1
+        elif rng.random() < 0.12: d['alias'] = rng.choice(['top', 'top', 'bottom'])
         return 'pt ' + json.dumps(d)
     if r < 0.50:                                      # mix_and_split
         k = rng.randrange(1, 5)
@@ -772,6 +862,9 @@ def gen_op(rng):
         else:
             d = dict(n=n, ins=ins, split=[rng.choice([0.0, 1.0, rng.randrange(0, 65) / 64, rng.randrange(0, 65) / 64]) for _ in range(n)])
         d['top0'], d['bot0'] = stale(rng, n), stale(rng, n)
+        if rng.random() < 0.2: d['alias_top'] = rng.randrange(k)
+        if rng.random() < 0.2: d['alias_bot'] = rng.randrange(k)
+        if d.get('alias_top') is not None and d.get('alias_top') == d.get('alias_bot'): del d['alias_bot']
         return 'ms ' + json.dumps(d)
     if r < 0.535:                                     # mix_and_split_with_moisture_content
         n = max(n, 2)
@@ -820,6 +913,30 @@ def gen_op(rng):
         if rng.random() < 0.5:
             return 'cs ' + json.dumps(dict(n=n, a=a, b=other))
         return 'cs ' + json.dumps(dict(n=n, a=a, mixed=[x + y for x, y in zip(a, other)]))
+    if r >= 0.96:                                     # material_balance, balance='composition'
+        n = max(n, 2)
+        k = rng.randrange(1, min(n, 3) + 1)
+        idx = rng.sample(range(n), k)
+        contractive = rng.random() < 0.8
+        vin = []
+        for j in range(k):
+            f = [0.0] * n
+            for c in idx: f[c] = 0.0 if rng.random() < 0.5 else rng.randrange(0, 9) / 8
+            f[idx[j]] = 4.0 + rng.randrange(0, 33) / 8
+            if not contractive:
+                for c in range(n):
+                    if c not in idx and rng.random() < 0.5: f[c] = rng.randrange(1, 9) / 8
+            vin.append(f)
+        cin = [flows(rng, n, 0.4) for _ in range(rng.randrange(1, 3))]
+        cout = [flows(rng, n, 0.2) for _ in range(rng.randrange(1, 3))]
+        if rng.random() < 0.7:             # little of the chosen chemicals in the constant inlets: no negative factor, no shift
+            for s_ in cin:
+                for c in idx: s_[c] = rng.randrange(0, 9) / 8
+            for c in idx: cout[0][c] += 32.0 * rng.randrange(1, 5)
+        if contractive and n > k:          # the outlets carry other chemicals too: sum(f) < 1
+            other = [c for c in range(n) if c not in idx]
+            cout[0][rng.choice(other)] += 64.0 * rng.randrange(1, 9)
+        return 'mbc ' + json.dumps(dict(n=n, idx=idx, vin=vin, cin=cin, cout=cout))
     # material_balance
     k = rng.randrange(1, min(n, 4) + 1)
     idx = rng.sample(range(n), k)
@@ -870,6 +987,12 @@ def corpus():
               'lle ' + j(dict(n=5, feed=[50, 0.5, 0, 0, 2], holder=1, tc=None, eff=1.0, top0=[1, 1, 1, 1, 1], bot0=None))]),
         Case(['vle ' + j(dict(n=3, feed=[20, 20, 1], holder=1, holder0=[[5, 5, 5], [1, 2, 3]], spec=dict(V=0.5, P=101325.0), top0=None, bot0=None)),
               'vle ' + j(dict(n=3, feed=[5, 30, 3], holder=1, spec=dict(T=360.0, P=101325.0), top0=None, bot0=[1, 1, 1]))]),
+        # composition balance (doctest numbers), aliasing
+        Case(['mbc ' + j(dict(n=2, idx=[0, 1], vin=[[1, 0], [0, 1]], cin=[[100, 0]], cout=[[200, 2], [0, 100]])),
+              'ms ' + j(dict(n=2, ins=[[20, 5], [15, 5]], split=[0.75, 0.75], scalar=1, top0=None, bot0=None, alias_top=0, alias_bot=1)),
+              'pt ' + j(dict(n=5, feed=[20, 20, 4, 1, 2], ids=[0, 1], K=[0.5, 2.0], topc=[4], botc=[], strict=0, top0=None, bot0=[3, 0, 0, 0, 0], alias='top')),
+              'pt ' + j(dict(n=5, feed=[20, 20, 4, 1, 2], ids=[0, 1], K=[0.5, 2.0], topc=[4], botc=[3], strict=0, top0=None, bot0=None, alias='top')),
+              'pt ' + j(dict(n=5, feed=[20, 20, 4, 1, 2], ids=[0, 1], K=[0.5, 2.0], topc=[4], botc=[3], strict=0, top0=[1, 0, 0, 0, 0], bot0=None, alias='bottom'))]),
         Case(['ms ' + j(dict(n=2, ins=[[20, 5], [15, 5]], split=[0.75, 0.75], scalar=1, top0=[1, 2], bot0=[3, 4])),
               'ps ' + j(dict(n=2, phases='gl', rows=[[1, 2], [3, 4]], nout=2, outs0=[[9, 9], [8, 8]])),
               'cs ' + j(dict(n=2, a=[1, 0], b=[3, 0])),
